@@ -134,7 +134,10 @@ func (te *TemporalEvaluator) evalTemporalAtomWithoutOperator(
 
 		// Bind interval variables if present in the original query interval
 		if interval != nil {
-			newSubst = te.bindIntervalVariables(*interval, tf.Interval, newSubst)
+			var ok bool
+			if newSubst, ok = te.bindIntervalVariables(*interval, tf.Interval, newSubst); !ok {
+				return nil // An interval variable is already bound to another instant.
+			}
 		}
 
 		solutions = append(solutions, newSubst)
@@ -183,7 +186,10 @@ func (te *TemporalEvaluator) evalDiamondMinus(
 
 		// Bind interval variables if present
 		if interval != nil {
-			newSubst = te.bindIntervalVariables(*interval, tf.Interval, newSubst)
+			var ok bool
+			if newSubst, ok = te.bindIntervalVariables(*interval, tf.Interval, newSubst); !ok {
+				return nil // An interval variable is already bound to another instant.
+			}
 		}
 
 		solutions = append(solutions, newSubst)
@@ -227,7 +233,10 @@ func (te *TemporalEvaluator) evalBoxMinus(
 		if te.intervalContains(tf.Interval, queryInterval) {
 			// Bind interval variables if present
 			if interval != nil {
-				newSubst = te.bindIntervalVariables(*interval, tf.Interval, newSubst)
+				var ok bool
+				if newSubst, ok = te.bindIntervalVariables(*interval, tf.Interval, newSubst); !ok {
+					return nil // An interval variable is already bound to another instant.
+				}
 			}
 
 			solutions = append(solutions, newSubst)
@@ -357,7 +366,10 @@ func (te *TemporalEvaluator) evalDiamondPlus(
 
 		// Bind interval variables if present
 		if interval != nil {
-			newSubst = te.bindIntervalVariables(*interval, tf.Interval, newSubst)
+			var ok bool
+			if newSubst, ok = te.bindIntervalVariables(*interval, tf.Interval, newSubst); !ok {
+				return nil // An interval variable is already bound to another instant.
+			}
 		}
 
 		solutions = append(solutions, newSubst)
@@ -401,7 +413,10 @@ func (te *TemporalEvaluator) evalBoxPlus(
 		if te.intervalContains(tf.Interval, queryInterval) {
 			// Bind interval variables if present
 			if interval != nil {
-				newSubst = te.bindIntervalVariables(*interval, tf.Interval, newSubst)
+				var ok bool
+				if newSubst, ok = te.bindIntervalVariables(*interval, tf.Interval, newSubst); !ok {
+					return nil // An interval variable is already bound to another instant.
+				}
 			}
 
 			solutions = append(solutions, newSubst)
@@ -433,8 +448,10 @@ func (te *TemporalEvaluator) resolveFutureOperatorInterval(interval ast.Interval
 }
 
 // bindIntervalVariables binds interval variables in the query to the fact's interval.
-// Supports binding @[T] (point/variable) or @[T1, T2] (range).
-func (te *TemporalEvaluator) bindIntervalVariables(queryInterval ast.Interval, factInterval ast.Interval, subst unionfind.UnionFind) unionfind.UnionFind {
+// Supports binding @[T] (point/variable) or @[T1, T2] (range). It reports false
+// if a variable is already bound to a different instant: the fact's interval
+// then does not match the annotation.
+func (te *TemporalEvaluator) bindIntervalVariables(queryInterval ast.Interval, factInterval ast.Interval, subst unionfind.UnionFind) (unionfind.UnionFind, bool) {
 	newSubst := subst
 
 	// Bind start variable if present
@@ -442,21 +459,25 @@ func (te *TemporalEvaluator) bindIntervalVariables(queryInterval ast.Interval, f
 		// Create a constant for the start timestamp
 		startNano := factstore.GetStartTime(factInterval)
 		startConst := ast.Time(startNano)
-		if s, err := unionfind.UnifyTermsExtend([]ast.BaseTerm{queryInterval.Start.Variable}, []ast.BaseTerm{startConst}, newSubst); err == nil {
-			newSubst = s
+		s, err := unionfind.UnifyTermsExtend([]ast.BaseTerm{queryInterval.Start.Variable}, []ast.BaseTerm{startConst}, newSubst)
+		if err != nil {
+			return subst, false
 		}
+		newSubst = s
 	}
 
 	// Bind end variable if present
 	if queryInterval.End.Type == ast.VariableBound {
 		endNano := factstore.GetEndTime(factInterval)
 		endConst := ast.Time(endNano)
-		if s, err := unionfind.UnifyTermsExtend([]ast.BaseTerm{queryInterval.End.Variable}, []ast.BaseTerm{endConst}, newSubst); err == nil {
-			newSubst = s
+		s, err := unionfind.UnifyTermsExtend([]ast.BaseTerm{queryInterval.End.Variable}, []ast.BaseTerm{endConst}, newSubst)
+		if err != nil {
+			return subst, false
 		}
+		newSubst = s
 	}
 
-	return newSubst
+	return newSubst, true
 }
 
 // intervalToConstant converts an interval to a Mangle constant (pair of numbers).
